@@ -638,8 +638,11 @@ func removeInstr(in ssa.Instruction) {
 	b.Instrs = out
 }
 
-// threadConstantResults: cont = [phis..., (!)*, If]. A predecessor on which
-// the tested phi is a constant goes straight to the branch target.
+// threadConstantResults: cont = [phis..., test, If] where test is a chain of
+// `!` over a boolean phi of cont, or a comparison of a phi of cont with nil. A
+// predecessor on which the outcome of the test is known (constant bool edge /
+// constant nil edge) goes straight to the branch target; values of cont that
+// are used below the target get a phi there.
 func threadConstantResults(fn *ssa.Function, cont *ssa.BasicBlock) {
 	if len(cont.Instrs) == 0 || len(cont.Succs) != 2 || cont.Succs[0] == cont.Succs[1] {
 		return
@@ -648,106 +651,113 @@ func threadConstantResults(fn *ssa.Function, cont *ssa.BasicBlock) {
 	if !ok {
 		return
 	}
-	cond := term.Cond
-	neg := false
-	chain := map[ssa.Instruction]bool{}
-	for {
-		u, ok := cond.(*ssa.UnOp)
-		if !ok || u.Op != token.NOT || u.Block() != cont {
-			break
+	// the test, as a function from predecessor index to a known outcome
+	testDefs := map[ssa.Instruction]bool{}
+	var outcome func(k int) (bool, bool)
+	{
+		cond := term.Cond
+		neg := false
+		for {
+			u, ok := cond.(*ssa.UnOp)
+			if !ok || u.Op != token.NOT || u.Block() != cont {
+				break
+			}
+			testDefs[u] = true
+			cond = u.X
+			neg = !neg
 		}
-		chain[u] = true
-		cond = u.X
-		neg = !neg
-	}
-	phi, ok := cond.(*ssa.Phi)
-	if !ok || phi.Block() != cont {
-		return
-	}
-	var defs []ssa.Value
-	for _, in := range cont.Instrs {
-		switch x := in.(type) {
+		switch x := cond.(type) {
 		case *ssa.Phi:
-			defs = append(defs, x)
-		case *ssa.UnOp:
-			if !chain[x] {
+			if x.Block() != cont {
 				return
 			}
-			defs = append(defs, x)
-		case *ssa.If:
+			outcome = func(k int) (bool, bool) {
+				c, ok := x.Edges[k].(*ssa.Const)
+				if !ok || c.Value == nil || c.Value.Kind() != constant.Bool {
+					return false, false
+				}
+				return constant.BoolVal(c.Value) != neg, true
+			}
+		case *ssa.BinOp:
+			if x.Block() != cont || (x.Op != token.EQL && x.Op != token.NEQ) {
+				return
+			}
+			var ph *ssa.Phi
+			if c, ok := x.Y.(*ssa.Const); ok && c.IsNil() {
+				ph, _ = x.X.(*ssa.Phi)
+			} else if c, ok := x.X.(*ssa.Const); ok && c.IsNil() {
+				ph, _ = x.Y.(*ssa.Phi)
+			}
+			if ph == nil || ph.Block() != cont {
+				return
+			}
+			testDefs[x] = true
+			outcome = func(k int) (bool, bool) {
+				c, ok := ph.Edges[k].(*ssa.Const)
+				if !ok || !c.IsNil() {
+					return false, false // a non-constant error value: unknown
+				}
+				return (x.Op == token.EQL) != neg, true
+			}
 		default:
 			return
 		}
 	}
-	// which predecessors have a constant outcome
+	var phis []*ssa.Phi
+	for _, in := range cont.Instrs {
+		switch x := in.(type) {
+		case *ssa.Phi:
+			phis = append(phis, x)
+		case *ssa.If:
+		default:
+			if !testDefs[in] {
+				return
+			}
+		}
+	}
 	type edge struct {
 		k      int
 		target *ssa.BasicBlock
-		c      bool
 	}
 	var edges []edge
-	for k, e := range phi.Edges {
-		c, ok := e.(*ssa.Const)
-		if !ok || c.Value == nil || c.Value.Kind() != constant.Bool {
-			continue
+	for k := range cont.Preds {
+		if v, known := outcome(k); known {
+			t := cont.Succs[1]
+			if v {
+				t = cont.Succs[0]
+			}
+			edges = append(edges, edge{k, t})
 		}
-		v := constant.BoolVal(c.Value)
-		taken := v != neg
-		t := cont.Succs[1]
-		if taken {
-			t = cont.Succs[0]
-		}
-		edges = append(edges, edge{k, t, v})
 	}
 	if len(edges) == 0 {
 		return
 	}
-	all := len(edges) == len(phi.Edges)
-	// value of a cont definition when entered from predecessor k
-	valueAt := func(v ssa.Value, k int) ssa.Value {
-		switch x := v.(type) {
-		case *ssa.Phi:
-			if x.Block() == cont {
-				return x.Edges[k]
-			}
-		case *ssa.UnOp:
-			if chain[x] {
-				// evaluate the NOT chain down to the phi
-				n := false
-				var cur ssa.Value = x
-				for {
-					u, ok := cur.(*ssa.UnOp)
-					if !ok || !chain[u] {
-						break
-					}
-					n = !n
-					cur = u.X
-				}
-				c := cur.(*ssa.Phi).Edges[k].(*ssa.Const)
-				return ssa.NewConst(constant.MakeBool(constant.BoolVal(c.Value) != n), x.Type())
+	// uses of cont's phis outside cont (the test values themselves must not escape)
+	for in := range testDefs {
+		for _, u := range *in.(ssa.Value).Referrers() {
+			if u.Block() != cont {
+				return
 			}
 		}
-		return v
 	}
-	// uses outside cont
 	type use struct {
 		in  ssa.Instruction
-		def ssa.Value
+		def *ssa.Phi
 		blk *ssa.BasicBlock // block at whose end the value must be available
 		op  *ssa.Value
 	}
 	var outside []use
-	for _, d := range defs {
+	for _, d := range phis {
 		for _, u := range *d.Referrers() {
 			if u.Block() == cont {
 				continue
 			}
 			if p, ok := u.(*ssa.Phi); ok {
 				for i := range p.Edges {
-					if p.Edges[i] == d {
+					if p.Edges[i] == ssa.Value(d) {
 						pb := p.Block().Preds[i]
 						if pb == cont {
-							continue // handled when the edge is redirected
+							continue // rewritten when the edge is redirected
 						}
 						outside = append(outside, use{u, d, pb, &p.Edges[i]})
 					}
@@ -755,33 +765,43 @@ func threadConstantResults(fn *ssa.Function, cont *ssa.BasicBlock) {
 				continue
 			}
 			for _, op := range u.Operands(nil) {
-				if *op == d {
+				if *op == ssa.Value(d) {
 					outside = append(outside, use{u, d, u.Block(), op})
 				}
 			}
 		}
 	}
-	if len(outside) > 0 {
-		if !all {
-			return
-		}
-		for _, u := range outside {
-			okUse := false
-			for _, s := range cont.Succs {
-				if len(s.Preds) == 1 && s.Dominates(u.blk) {
-					okUse = true
-				}
+	threadedTo := map[*ssa.BasicBlock]bool{}
+	for _, e := range edges {
+		threadedTo[e.target] = true
+	}
+	// every outside use must lie below exactly one successor; below a successor
+	// that receives threaded edges it needs a merge there, so that successor must
+	// have cont as its only predecessor
+	useSucc := map[int]*ssa.BasicBlock{}
+	for i, u := range outside {
+		var owner *ssa.BasicBlock
+		for _, s := range cont.Succs {
+			if len(s.Preds) == 1 && s.Dominates(u.blk) {
+				owner = s
 			}
-			if !okUse {
+		}
+		if owner == nil {
+			if threadedTo[cont.Succs[0]] || threadedTo[cont.Succs[1]] {
+				// used at a join below both successors: would need full SSA reconstruction
 				return
 			}
 		}
+		useSucc[i] = owner
+	}
+	valueAt := func(v ssa.Value, k int) ssa.Value {
+		if ph, ok := v.(*ssa.Phi); ok && ph.Block() == cont {
+			return ph.Edges[k]
+		}
+		return v
 	}
 	// redirect
-	type joined struct {
-		ks []int
-	}
-	perSucc := map[*ssa.BasicBlock]*joined{}
+	perSucc := map[*ssa.BasicBlock][]int{}
 	for _, e := range edges {
 		p := cont.Preds[e.k]
 		s := e.target
@@ -806,60 +826,39 @@ func threadConstantResults(fn *ssa.Function, cont *ssa.BasicBlock) {
 			sp.Edges = append(sp.Edges, v)
 			addRef(v, sp)
 		}
-		if perSucc[s] == nil {
-			perSucc[s] = &joined{}
-		}
-		perSucc[s].ks = append(perSucc[s].ks, e.k)
+		perSucc[s] = append(perSucc[s], e.k)
 	}
-	// outside uses (only when cont dies): per-successor replacement values
-	if len(outside) > 0 {
-		repl := map[*ssa.BasicBlock]map[ssa.Value]ssa.Value{}
-		for _, s := range cont.Succs {
-			if len(s.Preds) < 2 { // cont plus at least one threaded edge
-				continue
-			}
-			j := perSucc[s]
-			if j == nil {
-				continue
-			}
-			repl[s] = map[ssa.Value]ssa.Value{}
-			seen := map[ssa.Value]bool{}
-			for _, u := range outside {
-				if seen[u.def] {
-					continue
-				}
-				seen[u.def] = true
-				if len(j.ks) == 1 {
-					repl[s][u.def] = valueAt(u.def, j.ks[0])
-					continue
-				}
-				np := &ssa.Phi{Comment: "inl.thread"}
-				setBlock(np, s)
-				resetRegister(np, 900000+len(s.Instrs)+s.Index*100)
-				setRegType(np, u.def.Type())
-				// edge order must match s.Preds: cont first (it dies; cleanup drops the edge), then the threaded preds
-				np.Edges = append(np.Edges, u.def)
-				addRef(u.def, np)
-				for _, k := range j.ks {
-					v := valueAt(u.def, k)
-					np.Edges = append(np.Edges, v)
-					addRef(v, np)
-				}
-				s.Instrs = append([]ssa.Instruction{np}, s.Instrs...)
-				repl[s][u.def] = np
-			}
+	// merges for the outside uses
+	repl := map[*ssa.BasicBlock]map[*ssa.Phi]ssa.Value{}
+	for i, u := range outside {
+		s := useSucc[i]
+		if s == nil || len(perSucc[s]) == 0 {
+			continue
 		}
-		for _, u := range outside {
-			for _, s := range cont.Succs {
-				if m := repl[s]; m != nil && s.Dominates(u.blk) {
-					if nv := m[u.def]; nv != nil {
-						dropRef(u.def, u.in)
-						*u.op = nv
-						addRef(nv, u.in)
-					}
-				}
-			}
+		if repl[s] == nil {
+			repl[s] = map[*ssa.Phi]ssa.Value{}
 		}
+		nv := repl[s][u.def]
+		if nv == nil {
+			np := &ssa.Phi{Comment: u.def.Comment}
+			setBlock(np, s)
+			resetRegister(np, 900000+len(s.Instrs)+s.Index*100)
+			setRegType(np, u.def.Type())
+			// edge order = s.Preds: cont first, then the threaded predecessors
+			np.Edges = append(np.Edges, u.def)
+			addRef(u.def, np)
+			for _, k := range perSucc[s] {
+				v := valueAt(u.def, k)
+				np.Edges = append(np.Edges, v)
+				addRef(v, np)
+			}
+			s.Instrs = append([]ssa.Instruction{np}, s.Instrs...)
+			repl[s][u.def] = np
+			nv = np
+		}
+		dropRef(u.def, u.in)
+		*u.op = nv
+		addRef(nv, u.in)
 	}
 	// drop the threaded predecessors from cont
 	gone := map[int]bool{}
@@ -872,18 +871,12 @@ func threadConstantResults(fn *ssa.Function, cont *ssa.BasicBlock) {
 			np = append(np, p)
 		}
 	}
-	for _, in := range cont.Instrs {
-		ph, ok := in.(*ssa.Phi)
-		if !ok {
-			continue
-		}
+	for _, ph := range phis {
 		var ne []ssa.Value
 		for k, e := range ph.Edges {
-			if gone[k] {
-				// still referenced by another surviving edge?
-				continue
+			if !gone[k] {
+				ne = append(ne, e)
 			}
-			ne = append(ne, e)
 		}
 		for k, e := range ph.Edges {
 			if gone[k] {
@@ -893,14 +886,32 @@ func threadConstantResults(fn *ssa.Function, cont *ssa.BasicBlock) {
 						still = true
 					}
 				}
+				// the merges created above may also refer to e: addRef was called for them
 				if !still {
-					dropRef(e, ph)
+					dropRefOnce(e, ph)
 				}
 			}
 		}
 		ph.Edges = ne
 	}
 	cont.Preds = np
+}
+
+// dropRefOnce removes one occurrence of in from v's referrers.
+func dropRefOnce(v ssa.Value, in ssa.Instruction) {
+	if v == nil {
+		return
+	}
+	r := v.Referrers()
+	if r == nil {
+		return
+	}
+	for i, x := range *r {
+		if x == in {
+			*r = append((*r)[:i], (*r)[i+1:]...)
+			return
+		}
+	}
 }
 
 // cleanup removes unreachable blocks, renumbers, and rebuilds dominators.
